@@ -1012,9 +1012,19 @@ def c13_nondyadic_group(job):
     rnd = _r.Random(f"{seed}:{cfg_key(c)}:nd")
     p = Problem(c, seed)
     fails, keys = [], []
+    # mixed precision (accepted by the library): float32 state and times, float64 Brownian motion - the values computed
+    # by the steps are float64 then; only with tensor ts (a list would be converted to the dtype of each chunk's y0)
+    mixed = bool(job.get("mixed")) and c["dtype"] == "float32" and c["ts_kind"] == "tensor"
+    if mixed:
+        def _bm64(t0_, t1_, max_calls=2000):
+            inner = torchsde.BrownianInterval(t0=t0_, t1=t1_, size=(p.batch, p.m), dtype=torch.float64, entropy=p.entropy,
+                                              levy_area_approximation=c["levy"])
+            return RecordingBrownian(inner, max_calls=max_calls)
+        p.bm = _bm64
     for (t0, dt, nsteps, clip) in job["grids"]:
         T = t0 + nsteps * dt + (0.37 * dt if clip else 0.0)
-        key = dict(label=c["label"], noise=c["noise"], dtype=c["dtype"], ts_kind=c["ts_kind"], check="chunk_values", grid="nondyadic")
+        key = dict(label=c["label"], noise=c["noise"], dtype=c["dtype"] + ("+bm64" if mixed else ""), ts_kind=c["ts_kind"],
+                   check="chunk_values", grid="nondyadic")
         try:
             bm0 = p.bm(t0, T, max_calls=8 * nsteps + 64)
             p.sdeint([t0, T], dt, bm0)
@@ -1044,7 +1054,7 @@ def c13_nondyadic_group(job):
                 ys2 = torch.cat(pieces, dim=0)
                 q1 = bm1.log[:nq1]
                 q2 = bm2.log[nq1:] if same_obj else bm2.log
-                keys.append((f"nondyadic|{cfg_key(c)}|dt={dt}|n={nsteps}|clip={clip}|chunks={len(cuts) + 1}",
+                keys.append((f"nondyadic{'|mixed' if mixed else ''}|{cfg_key(c)}|dt={dt}|n={nsteps}|clip={clip}|chunks={len(cuts) + 1}",
                              dict(config=cfg_key(c), dt=dt, t0=t0, steps=nsteps, clipped_last_step=clip,
                                   restart_times=[grid[i] for i in cuts], same_brownian_object=same_obj)))
                 rp = dict(config=c, seed=seed, nondyadic=dict(t0=t0, dt=dt, nsteps=nsteps, clip=clip, cuts=cuts, outs=idx))
